@@ -54,7 +54,7 @@ ASSUMPTIONS = [
 ]
 BOUNDS = {
     "quick": {
-        "layouts": "72 + 21 with a line-break look-alike (FF VT FS NEL LS PS lone-CR) in the preceding text",
+        "layouts": "72 + 6 with one / two characters in front of the construct + 12 whose first line is a latin-1 / cp1251 / shift_jis / koi8-r coding comment with non-ASCII text (stored in that codec for the file paths) + 21 with a line-break look-alike (FF VT FS NEL LS PS lone-CR) in the preceding text",
         "tails": "2 (blank-region variants behind the 72 plain layouts: without tail only)",
         "paths": "4 direct + 8 nested (include / inherit / namespace file= / include inside a def from a rendering template, in memory and with module_directory) for LF column-1 plain-layout documents without tail",
         "html_error_template": "nested include route; string path, LF documents without tail; look-alike layouts without tail: string path, and file path for the LF column-1 ones; blank-region variants only there",
@@ -65,7 +65,7 @@ BOUNDS = {
         ],
     },
     "thorough": {
-        "layouts": "72 + 54 with a line-break look-alike (FF VT FS GS RS NEL LS PS lone-CR) in the preceding text",
+        "layouts": "72 + 16 one/two-character prefixes + 24 non-UTF-8 coding-comment layouts + 54 with a line-break look-alike (FF VT FS GS RS NEL LS PS lone-CR) in the preceding text",
         "tails": 3,
         "paths": "4 direct + 8 nested routes for every document without tail",
         "html_error_template": "all direct paths, all documents; nested include and inherit+module_directory routes",
@@ -377,6 +377,18 @@ SPECIALS = ("\x0c", "\x0b", "\x1c", "\x85", "\u2028", "\u2029", "\r", "\x1d", "\
 def layouts(tier="quick"):
     """the 72 layouts of the design + layouts whose preceding text holds a line-break look-alike"""
     out = list(itertools.product(BLANKS, EOLS, PRETEXT, PLACE))
+    # one and two characters in front of the construct (three = "after3"), on line 1 and further down
+    if tier == "quick":
+        out += [(0, "\n", "none", "after1"), (0, "\r\n", "none", "after1"), (0, "\n", "none", "after2"), (0, "\r\n", "none", "after2"),
+                (1, "\n", "one", "after1"), (2, "\r\n", "cont", "after2")]
+    else:
+        out += list(itertools.product((0, 1), EOLS, ("none", "one"), ("after1", "after2")))
+    # first line = coding comment of a non-UTF-8 codec
+    for i in range(len(CODINGS)):
+        if tier == "quick":
+            out += [(0, "\n", "coding%d" % i, "col1"), (0, "\r\n", "coding%d" % i, "col1"), (0, "\n", "coding%d" % i, "after3")]
+        else:
+            out += list(itertools.product((0,), EOLS, ["coding%d" % i], PLACE))
     if tier == "quick":
         for i in range(7):
             out += [(0, "\n", "special%d" % i, "col1"), (0, "\r\n", "special%d" % i, "col1"), (1, "\n", "special%d" % i, "after3")]
@@ -385,9 +397,27 @@ def layouts(tier="quick"):
     return out
 
 
+# first line = magic coding comment of a non-UTF-8 codec, with non-ASCII characters of that codec before and after the
+# declaration; the document is stored in that codec for the file / lookup / module-directory paths and passed as str
+# on the string path.  (codec, (filler word, two characters, two words))
+CODINGS = (
+    ("latin-1", ("Ren\u00e9", "\u00e9b", "w\u00f6r ld")),
+    ("cp1251", ("\u0436\u0443\u043a", "\u0436\u0431", "\u0436\u0443 \u043a")),
+    ("shift_jis", ("\u65e5\u672c", "\u65e5b", "\u672c \u8a9e")),
+    ("koi8-r", ("\u0436\u0443\u043a", "\u0436\u0431", "\u0436\u0443 \u043a")),
+)
+TAILWORD = "\x04"  # replaced by the layout's filler word
+
+
+def fillers(layout, seed):
+    pre = layout[2]
+    if pre.startswith("coding"):
+        return CODINGS[int(pre[6:])][1]
+    return POOL_TXT[seed % len(POOL_TXT)]
+
+
 def tails(tier, seed):
-    t1 = POOL_TXT[seed % len(POOL_TXT)][0]
-    ts = ["", "\n" + t1 + " tail\n"]
+    ts = ["", "\n" + TAILWORD + " tail\n"]
     if tier != "quick":
         ts.append("\n")
     return ts
@@ -395,7 +425,7 @@ def tails(tier, seed):
 
 def layout_prefix(layout, seed):
     nb, _eol, pre, place = layout
-    t1, t2, t3 = POOL_TXT[seed % len(POOL_TXT)]
+    t1, t2, t3 = fillers(layout, seed)
     s = "\n" * nb
     if pre == "one":
         s += t1 + "\n"
@@ -406,10 +436,17 @@ def layout_prefix(layout, seed):
     elif pre.startswith("special"):
         x = SPECIALS[int(pre[7:])]
         s += t1 + x + t3 + "\n" + x + "l2" + x + "z\n"
+    elif pre.startswith("coding"):
+        codec = CODINGS[int(pre[6:])][0]
+        s += "## " + t1 + " -*- coding: " + codec + " -*- written by " + t1 + "\n" + t3 + "\n"
     if place == "indent4":
         s += "    "
     elif place == "after3":
         s += t2 + " "
+    elif place == "after2":
+        s += t2
+    elif place == "after1":
+        s += t2[0]
     return s
 
 
@@ -459,12 +496,16 @@ def expectation(fault, L, C, Lp, alt=None):
 
 def build_a(layout, fault, tail, seed):
     """-> (text, exp, base_text) or None when the placement cannot hold this construct"""
-    if fault["lead"] and layout[3] == "after3":
+    if fault["lead"] and layout[3].startswith("after"):
         return None
     pre = layout_prefix(layout, seed)
+    tail = tail.replace(TAILWORD, fillers(layout, seed)[0])
     text, L, C, Lp, alt = locate(pre + fault["snip"] + tail, layout[1])
     base = (pre + fault["fixed"] + tail).replace("\n", layout[1])
-    return text, expectation(fault, L, C, Lp, alt), base
+    exp = expectation(fault, L, C, Lp, alt)
+    if layout[2].startswith("coding"):
+        exp["enc"] = CODINGS[int(layout[2][6:])][0]  # how the file paths store the document
+    return text, exp, base
 
 
 # --------------------------------------------------------------------------
@@ -788,10 +829,10 @@ def check_doc(text, exp, paths, html_paths, st, kind, outcome_extra=(), light=Fa
         e_.n += 1
         fname = os.path.join(e_.dir, "t%d.html" % e_.n)
         with open(fname, "wb") as f:
-            f.write(text.encode("utf-8"))
+            f.write(text.encode(exp.get("enc", "utf-8")))
     if any(p.startswith("nest:") for p in paths):
         with open(e_.nestfile, "wb") as f:
-            f.write(text.encode("utf-8"))
+            f.write(text.encode(exp.get("enc", "utf-8")))
         # a document whose fault only CPython's compiler stage finds leaves a module file behind; with the
         # same-second mtime it would be taken for the module of the next document (that is C15's subject)
         for root, _dirs, files in os.walk(e_.nestmod):
@@ -903,6 +944,7 @@ def run_a(tier, seed, F, sh, ns, st):
     skipped = 0
     for layout in layouts(tier):
         special = layout[2].startswith("special")
+        plain = layout[2] in PRETEXT
         for f in F:
             for tail in tails(tier, seed):
                 if quick and tail != "" and f["variant"] and not special:
@@ -924,7 +966,7 @@ def run_a(tier, seed, F, sh, ns, st):
                 else:
                     html_paths = ("string",) if tail == "" and layout[1] == "\n" and not f["variant"] else ()
                 paths = PATHS
-                if tail == "" and (not quick or (layout[1] == "\n" and layout[3] == "col1" and not special and not f["variant"])):
+                if tail == "" and (plain or special) and (not quick or (layout[1] == "\n" and layout[3] == "col1" and plain and not f["variant"])):
                     paths = PATHS + NEST_PATHS
                     if html_paths:
                         html_paths = tuple(html_paths) + (("nest:include",) if quick else ("nest:include", "nest:inherit:mod"))
